@@ -23,7 +23,9 @@ func main() {
 	}
 	w.Meta.Rule = "(a) scripts of 3..12 stack operations (Push/Pop/Get/SetTop/Insert/Remove/Replace/GetTop, indices valid, 0, +-(top+1), beyond, +-1000/9999) run by a NewFunction host function at activation depth 0..4 (Lua->Go->Lua->Go chains with 0..5, sometimes 60..105, caller locals; registries 256, 128 fixed and 128 growing), GetTop and every Get(i) logged after each operation, callers' registry cells read back raw and every caller checks its locals; " +
 		"(b) CallByParam/Call/PCall/GPCall x callee (Go, Lua fixed/vararg, non-function, table / userdata with a __call handler that records whether its first argument is the called object and its other arguments, compared with the Lua expression OBJ(a, b, ...)) x nargs 0..4 x produced 0..4 x NRet -1..5 x Protect x failing callee at depth 0..4; " +
-		"(b2) vm.go copyReturnValues driven through the hook on random frames (regv <= start, B = 0/1/>1, any count); (c) 15 object-level API calls vs the same operator in a Lua chunk on identically built operands (plain values, tables/userdata with random subsets of 12 logging metamethods). " +
+		"(a2/b3) the same scripts and calls made by a host function reached through a generated call path of depth 1..6: Lua levels (fixed arity or vararg, 0..3 locals, a run of 3..14 dead temporaries from a table constructor / concatenation / closed block / finished loop / argument list just before the call, an earlier caught error or finished deep recursion) and Go levels, entered by call / pcall / open argument list / tail call / __index / __call / coroutine.wrap / twice in a row / below a recursion of 1..23 frames, with MinimizeStackMemory on or off and 0..122 values held at top level (growing registries end up near their size); scripts contain reads at top+1..top+12 and up to two calls (Go / Lua / Lua wrapping a host function by tail call, fixed result count, open result list / re-entrant; with Go, Lua or failing error handlers; up to 40 results or NRet 50) after each of which the registry is read raw again; " +
+		"(b4) state.go initCallFrame of a fixed-arity Lua function driven through the hook on registries with dead values above the top; " +
+		"(b2) vm.go copyReturnValues driven through the hook on random frames (regv <= start, B = 0/1/>1, any count); (c) 15 object-level API calls vs the same operator in a Lua chunk on identically built operands (plain values, tables/userdata with random subsets of 12 logging metamethods), 40% of them made by a host function reached through a call path of depth 1..3 that holds 0..3 values of its own (checked afterwards), 25% made twice in a row. " +
 		"non-trivial = (a) frame base above 0 and a boundary/out-of-range index or a raise, no Go-nil holes; (b) depth > 0 and NRet != produced or a failing callee; (c) a metamethod was logged; distinct by Gallina term"
 	r := lib.NewRand(a.Seed)
 	if a.Replay != "" {
@@ -34,7 +36,7 @@ func main() {
 		np, ncp := 900, 400 // scripts / calls reached through generated call paths
 		if a.Tier == "thorough" {
 			na, nc, no = 40000, 20000, 30000
-			np, ncp = 30000, 10000
+			np, ncp = 20000, 6000
 		}
 		for i := 0; i < na; i++ {
 			d := i % 5
